@@ -208,7 +208,7 @@ func init() {
 		Special: func(w *fw.W) { depthLimitSpecial(w, "C07") }}
 	register(&Check{ID: "C07", Level: "model_checking",
 		Technique: "bounded exhaustive enumeration of scenario call trees x failures at every position (intrinsic and injected at join points) x repeated top-level invocations on one EVM; the recorded call tree is inspected through its public API after the last invocation",
-		Rule:      "scenario trees as in C04 (incl. insufficient-balance refusals, create collisions on repeated invocations, static faults) x invocation sequences of 1 and 3 top-level calls x answer vectors with <= k deviations. Oracle (public API): FindCall(i).Index == i for i < n and nil for n <= i < n+4 (n = attempts the scenario denotes); every non-top node has its issuing frame's node as Parent with a smaller index, is listed exactly once, children strictly increasing; ParentOf/ChildrenOf agree with the fields; Root() is node 0; Current() == nil. non-trivial = distinct executions with at least two nodes",
+		Rule:      "scenario trees as in C04 (incl. insufficient-balance refusals, create collisions on repeated invocations, static faults, a second call attempt by a frame after its first one returned or failed) x invocation sequences of 1 and 3 top-level calls x answer vectors with <= k deviations. Oracle (public API): FindCall(i).Index == i for i < n and nil for n <= i < n+4 (n = attempts the scenario denotes); every non-top node has its issuing frame's node as Parent with a smaller index, is listed exactly once, children strictly increasing; ParentOf/ChildrenOf agree with the fields; Root() is node 0; Current() == nil. non-trivial = distinct executions with at least two nodes",
 		Assumptions: []string{"the 1024-depth limit is covered by a dedicated recursion scenario, not by the grammar"},
 		Bounds:      func(t string) map[string]any { _, b, _ := c07.Opts(t); return map[string]any{"answer_deviation_bound": b} },
 		Quick:       80 * time.Second, Thorough: 40 * time.Minute, Run: c07.run, Replay: c07.replay})
@@ -236,7 +236,7 @@ func init() {
 		Special: func(w *fw.W) { depthLimitSpecial(w, "C08"); wideValueSpecial(w, "C08") }}
 	register(&Check{ID: "C08", Level: "model_checking",
 		Technique: "bounded exhaustive enumeration of scenario call trees x memory-reuse patterns after each call x failure kinds x join points on/off, executed on the real EVM; every recorded call-tree node compared with the attempt the scenario denotes (caller, target, value, input) and with gas/outcome taken from the debug tracer's enter/exit events",
-		Rule:      "scenario trees as in C04 x memory reuse {none, return area over the argument area, MSTORE over the arguments after the call} x join points on with Aspects bound everywhere / off x answers with <= k deviations. Oracle: one node per CALL/CREATE/CREATE2 attempt in program order (refused ones included, instruction faults excluded) under the frame that issued it; From/To/Value/input exactly as at the call; Gas == gas of the frame's enter event; RemainingGas == supplied - used of the exit event (all of it back for refusals, nothing for a collision); Err/Ret as handed back. non-trivial = distinct executions with nested attempts",
+		Rule:      "scenario trees as in C04 x memory reuse {none, return area over the argument area, MSTORE over the arguments after the call} x join points on with Aspects bound everywhere / off x answers with <= k deviations; plus the wide-value family (amounts 2^k-1, 2^k, 2^k+5 for k = 64, 128, 192 through Call, Create, CALL, CREATE, CREATE2) and the depth-limit recursion. Oracle: one node per CALL/CREATE/CREATE2 attempt in program order (refused ones included, instruction faults excluded) under the frame that issued it; From/To/Value/input exactly as at the call; Gas == gas of the frame's enter event; RemainingGas == supplied - used of the exit event (all of it back for refusals, nothing for a collision); Err/Ret as handed back. non-trivial = distinct executions with nested attempts",
 		Assumptions: []string{"leftover after a join-point failure other than out-of-gas is not judged (C06 does not determine it)"},
 		Bounds:      func(t string) map[string]any { _, b, _ := c08.Opts(t); return map[string]any{"answer_deviation_bound": b} },
 		Quick:       80 * time.Second, Thorough: 40 * time.Minute, Run: c08.run, Replay: c08.replay})
@@ -318,7 +318,7 @@ func init() {
 		}}
 	register(&Check{ID: "C13", Level: "model_checking",
 		Technique: "bounded exhaustive enumeration of scenario call trees with value transfers (zero, one wei, whole-range), transfers to precompiles, code-less and newly created accounts, frames that later fail, repeated invocations; the recorded balance journal is compared with the balances the reference interpreter computes around every transfer and with what a wrapping transfer function saw on the real state",
-		Rule:      "scenario trees x call kinds x values {0, 1, more than balance} x targets {child, precompile, code-less} x 7 terminators x top-level value {0, 1, 5000} x 1-2 invocations x Aspects bound everywhere with failing answers. Oracle: per account and call index the list [sender before, recipient before, sender after, recipient after] restricted to that account with immediate repeats collapsed, for every CALL/CREATE frame entered (zero-value included), equals Balance(addr).Changes(); no other entry exists. non-trivial = distinct executions with at least two transfers",
+		Rule:      "scenario trees x call kinds x values {0, 1, more than balance} x targets {child, precompile, code-less} x 7 terminators x top-level value {0, 1, 5000} x 1-2 invocations x Aspects bound everywhere with failing answers; plus a family whose frames announce and journal state variables around the transfers. Oracle: per account and call index the list [sender before, recipient before, sender after, recipient after] restricted to that account with immediate repeats collapsed, for every CALL/CREATE frame entered (zero-value included), equals Balance(addr).Changes(); no other entry exists. non-trivial = distinct executions with at least two transfers",
 		Bounds:    func(t string) map[string]any { _, b, _ := c13.Opts(t); return map[string]any{"answer_deviation_bound": b} },
 		Quick:     80 * time.Second, Thorough: 40 * time.Minute, Run: c13.run, Replay: c13.replay})
 }
